@@ -41,6 +41,8 @@ def main():
         p = os.path.basename(pd)
         if props and p not in props: continue
         for f in sorted(glob.glob(os.path.join(pd, "*.patch"))):
+            if os.environ.get("FASTSEEDS_ONLY") and not re.search(os.environ["FASTSEEDS_ONLY"], os.path.basename(f)):
+                continue
             jobs.append((p, f, binp))
     print("seeds:", len(jobs), flush=True)
     cnt = {}
